@@ -5,6 +5,7 @@ package receiver
 import (
 	"context"
 	"errors"
+	"sync"
 
 	"github.com/PowerDNS/lightningstream/config"
 	zz "github.com/PowerDNS/lightningstream/internal/zzverif"
@@ -20,6 +21,8 @@ type vBucket struct {
 	blobs    [][]byte
 	failList int
 	failLoad int
+	mu       sync.Mutex
+	onLoad   func() // called when a download has completed (the blob is now in memory)
 }
 
 var errInjected = errors.New("injected storage failure")
@@ -44,6 +47,11 @@ func (b *vBucket) Load(ctx context.Context, name string) ([]byte, error) {
 	}
 	for i, n := range b.names {
 		if n == name {
+			if b.onLoad != nil {
+				b.mu.Lock()
+				b.onLoad()
+				b.mu.Unlock()
+			}
 			return b.blobs[i], nil
 		}
 	}
@@ -224,4 +232,72 @@ func VerifC16() {
 	zz.Assert(lerr4 != nil, "C16/vanished-snapshot-reported")
 	zz.Assert(vHeld(r, false, limDec) == 0 && vHeld(r, true, limDl) == 0, "C16/tokens/all-returned-after-vanished-snapshot")
 	zz.Reach("C16/done")
+}
+
+// VerifC16Concurrent (thread mode): three instances publish at once and their downloaders run
+// concurrently under limits 1..2, the consumer taking a ready snapshot whenever all downloaders are blocked or done.
+// A downloaded blob stays in memory from the end of Load until its downloader has decoded it,
+// which it can only do after acquiring a decompression token. So at the end of every Load
+//     blobs in memory >= completed Loads - decompression tokens ever acquired
+// and the right-hand side must not exceed memory_downloaded_snapshots. (Decompression tokens
+// ever acquired = tokens out now + tokens returned by the consumer; the consumer counts before
+// it closes, which can only over-estimate: no false alarm.) Afterwards the consumer drains and
+// every instance's snapshot is delivered: no downloader stays blocked.
+func VerifC16Concurrent() {
+	lg := logrus.New()
+	lg.SetLevel(logrus.PanicLevel)
+	b := &vBucket{}
+	sh := zz.Shard(3)
+	limDl := []int{1, 1, 2}[sh]
+	limDec := []int{1, 2, 1}[sh]
+	c := config.Config{MemoryDecompressedSnapshots: limDec, MemoryDownloadedSnapshots: limDl}
+	r := New(b, c, "db", lg, "own", events.New(), hooks.New())
+	ctx := context.Background()
+	insts := []string{"a", "b", "c"}
+	for _, inst := range insts {
+		b.Store(ctx, vName(inst, 1), vGoodBlob(inst))
+		r.downloadersByInstance[inst] = &Downloader{r: r, l: lg, c: c, instance: inst, lmdbname: "db", newSnapshotSignal: make(chan struct{}, 1)}
+	}
+	if err := r.RunOnce(ctx, false); err != nil {
+		zz.Assert(false, "C16/concurrent/list")
+		return
+	}
+	loaded, consumed, delivered := 0, 0, 0
+	b.onLoad = func() {
+		loaded++ // (threads only switch at synchronisation operations; natively the bucket serialises Loads)
+		decEver := consumed + vHeld(r, false, limDec)
+		zz.Assert(loaded-decEver <= limDl, "C16/concurrent/downloaded-blobs-within-limit")
+		zz.Assert(vHeld(r, true, limDl) >= 1, "C16/concurrent/download-holds-a-token")
+	}
+	take := func() bool {
+		inst, upd := r.Next()
+		if inst == "" {
+			return false
+		}
+		consumed++
+		delivered++
+		upd.Close()
+		return true
+	}
+	for _, inst := range insts {
+		d := r.downloadersByInstance[inst]
+		ni := r.lastSeenByInstance[inst]
+		zz.Go("dl-"+inst, func() {
+			if err := d.LoadOnce(ctx, ni); err == nil {
+				d.last = ni
+			}
+		})
+	}
+	// drain: whenever everything is blocked or done, the sync loop takes what is ready
+	for round := 0; round < 4; round++ {
+		zz.Settle()
+		zz.Assert(vHeld(r, true, limDl) <= limDl && vHeld(r, false, limDec) <= limDec, "C16/concurrent/tokens-within-limits")
+		take()
+	}
+	zz.WaitThreads("C16/concurrent/no-downloader-stuck")
+	for take() {
+	}
+	zz.Assert(delivered == 3, "C16/concurrent/every-instance-delivered")
+	zz.Assert(vHeld(r, true, limDl) == 0 && vHeld(r, false, limDec) == 0, "C16/concurrent/all-tokens-returned")
+	zz.Reach("C16/concurrent/done")
 }
